@@ -283,6 +283,62 @@ def run(ctx):
             ctx.violation("%s:%s" % (c["name"], clause),
                           "loci (%d,%d): observed %.4f expected %.4f (z=%.1f, twice)" % (a, b, f, p, z),
                           {"xoprob": c["xoprob"], "failing": [list(map(float, x)) for x in bad[:5]]})
+    # ---- selfing generations before the doubled haploids are made (nself >= 1): the source copy of the last meiosis cannot be
+    # read off the tags any more, but the JOINT ORIGIN of two loci in a DH line has an exact distribution -- the one TLC enumerates in
+    # ProgenyVar (hybridisation, backcross / second hybridisation, s selfing generations, gamete).  Parent of origin per locus is
+    # the tag; cell frequencies of the (origin at locus 1, origin at locus 2) table are z-tested against TLC's table.
+    jt = {}
+    for cfgp in ("ProgenyVar_MC2.cfg", "ProgenyVar_MC3.cfg") + (("ProgenyVar_MC4.cfg",) if thorough else ()):
+        rp = tlc.run("ProgenyVar_MC", cfgp, timeout=3000)
+        tlc.must_pass(rp, cfgp); ctx.add_tlc(rp, cfgp + " (joint-origin tables for the selfing statistics)")
+        for t_ in rp.json:
+            jt.setdefault((t_["scheme"], t_["s"], t_["rho"]), t_["joint"])
+    nj = 0
+    for pkey, scheme, Kp in (("2wdh", "2w", 2), ("3wdh", "3w", 3), ("4wdh", "4w", 4)):
+        cls_name, npar = PROTOS[pkey]
+        cls = getattr(importlib.import_module("pybrops.breed.prot.mate." + cls_name), cls_name)
+        for s_ in (1, 2):
+            for rho in ((1, 2, 3) if thorough else (rng.choice([1, 2, 3]),)):
+                if (scheme, s_, rho) not in jt or (scheme, s_, 4) not in jt:
+                    continue
+                xoprob = [0.5, rho / 8.0, 0.5]
+                def joint_fail(nn, seed):
+                    g = np.random.default_rng(seed)
+                    pg = make_parents(4, 3, xoprob, random.Random(1))
+                    # one DH line per independently made (and selfed) hybrid: nmating = nn, nprogeny = 1
+                    out = cls(rng=g).mate(pg, np.array([[0, 1, 2, 3][:npar]]), nn, 1, nself=s_)
+                    org = (np.asarray(out.mat)[0] // 2).astype(int)          # (progeny, locus) parent of origin
+                    bad = []
+                    if not np.array_equal(np.asarray(out.mat)[0], np.asarray(out.mat)[1]):
+                        bad.append(("not-homozygous", 0, 0, 0.0, 0.0, float("inf")))
+                    for (la, lb, rr) in ((0, 1, rho), (0, 2, 4)):
+                        w = jt[(scheme, s_, rr)]; tot = float(sum(w))
+                        for a in range(Kp):
+                            for b in range(Kp):
+                                pexp = w[a * Kp + b] / tot
+                                obs = int(np.sum((org[:, la] == a) & (org[:, lb] == b)))
+                                if pexp in (0.0, 1.0):
+                                    if obs != int(pexp * org.shape[0]):
+                                        bad.append(("loci %d,%d" % (la + 1, lb + 1), a, b, obs / org.shape[0], pexp, float("inf")))
+                                    continue
+                                z = (obs - org.shape[0] * pexp) / math.sqrt(org.shape[0] * pexp * (1 - pexp))
+                                if abs(z) > ZMAX:
+                                    bad.append(("loci %d,%d" % (la + 1, lb + 1), a, b, obs / org.shape[0], pexp, z))
+                    return bad
+                try:
+                    bad = joint_fail(n, rng.randrange(2 ** 32))
+                    if bad:
+                        bad = joint_fail(4 * n, rng.randrange(2 ** 32))
+                except Exception as e:
+                    ctx.violation("%s.mate[nself=%d]:exception" % (cls_name, s_), "%s: %s" % (type(e).__name__, e), {"xoprob": xoprob})
+                    continue
+                nj += 2 * Kp * Kp
+                ctx.count(1, ("joint", cls_name, s_, rho))
+                if bad:
+                    ctx.violation("%s.mate[nself>=1]:joint-origin-frequencies" % cls_name,
+                                  "nself=%d, r=%d/8, %s: origins (%d,%d) observed %.4f, TLC's enumeration gives %.4f (z=%.1f, twice)" % ((s_, rho) + tuple(bad[0])),
+                                  {"xoprob": xoprob, "nself": s_, "failing": [list(map(str, x)) for x in bad[:6]]})
+    ctx.extra["joint_origin_cells_monitored"] = nj
     ctx.extra["statistics_monitored"] = nstat
     ctx.extra["grid_cases"] = ngrid
     ctx.sample({"stat_case": {"name": stat[0]["name"], "xoprob": stat[0]["xoprob"], "expected_pairs_head": verd[stat[0]["id"]][1][:4]}})
